@@ -70,6 +70,15 @@ func (c *ExprCtx) intExpr(x CExpr) T {
 	return t
 }
 
+func (c *ExprCtx) floatExpr(x CExpr) T {
+	tv := c.expr(x)
+	t, ok := tv.V.(T)
+	if !ok || t.Sort != SF {
+		c.fail("expected float contract expression in %s", cexprString(x))
+	}
+	return t
+}
+
 func (c *ExprCtx) withBound(name string, v TV) *ExprCtx {
 	n := *c
 	n.bound = map[string]TV{}
@@ -95,7 +104,7 @@ func (c *ExprCtx) scopePkg() *types.Package {
 	if c.fr != nil && c.fr.fn.Pkg != nil {
 		return c.fr.fn.Pkg.Pkg
 	}
-	if c.e.fn.Pkg != nil {
+	if c.e.fn != nil && c.e.fn.Pkg != nil {
 		return c.e.fn.Pkg.Pkg
 	}
 	return nil
@@ -521,6 +530,9 @@ func (c *ExprCtx) indexExpr(base TV, ix CExpr) TV {
 	case *types.Slice:
 		sv := base.V.(*SliceV)
 		i := Add(sv.Off, c.intExpr(ix))
+		if sv.FromCell != nil {
+			return TV{V: e.load(c.st, Addr{Kind: ACell, Cell: sv.FromCell, Path: sv.CellPath, I: &i}, u.Elem()), Typ: u.Elem()}
+		}
 		if _, isStruct := under(u.Elem()).(*types.Struct); isStruct {
 			return TV{V: e.load(c.st, Addr{Kind: ARef, Base: e.elemAddr(sv.Base, i)}, u.Elem()), Typ: u.Elem()}
 		}
@@ -757,6 +769,24 @@ func (c *ExprCtx) call(x CCall) TV {
 			return TV{V: App(SInt, "mod", c.intExpr(x.Args[0]), IntBig(pow2(uint(k.Int64()))))}
 		case "b2i":
 			return TV{V: Ite(c.boolExpr(x.Args[0]), IntLit(1), IntLit(0))}
+		case "f64":
+			return TV{V: e.floatOp("i2f", SF, c.intExpr(x.Args[0]))}
+		case "fquo":
+			return TV{V: e.floatOp("fdiv", SF, c.floatExpr(x.Args[0]), c.floatExpr(x.Args[1]))}
+		case "fmul":
+			return TV{V: e.floatOp("fmul", SF, c.floatExpr(x.Args[0]), c.floatExpr(x.Args[1]))}
+		case "flit":
+			v, ok := litValue(c.intExpr(x.Args[0]))
+			if !ok {
+				c.fail("flit(constant)")
+			}
+			e.declFloat()
+			name := e.s.DeclareFun(fmt.Sprintf("fconst:%v", float64(v.Int64())), nil, SF)
+			return TV{V: T{name, SF}}
+		case "fle":
+			return TV{V: e.floatOp("fle", SBool, c.floatExpr(x.Args[0]), c.floatExpr(x.Args[1])), Typ: types.Typ[types.Bool]}
+		case "flt":
+			return TV{V: e.floatOp("flt", SBool, c.floatExpr(x.Args[0]), c.floatExpr(x.Args[1])), Typ: types.Typ[types.Bool]}
 		case "ghost":
 			n, ok := x.Args[0].(CIdent)
 			if !ok {
@@ -887,6 +917,8 @@ func (c *ExprCtx) specCall(sf *SpecFunc, args []CExpr) TV {
 		switch sf.Params[i].Typ {
 		case "bool":
 			ts = append(ts, c.boolExpr(a))
+		case "float":
+			ts = append(ts, c.floatExpr(a))
 		default:
 			tv := c.expr(a)
 			t, ok := tv.V.(T)
@@ -908,6 +940,8 @@ func specSort(t string) string {
 		return SInt
 	case "bytes", "arr":
 		return arrSort(SInt, SInt)
+	case "float":
+		return SF
 	}
 	return SInt
 }
@@ -936,6 +970,7 @@ func (e *Enc) declareSpec(sf *SpecFunc) string {
 	if sf.Uninter {
 		e.s.decls = append(e.s.decls, fmt.Sprintf("(declare-fun %s (%s) %s)", name, strings.Join(sorts, " "), specSort(sf.Ret)))
 		e.note("spec function " + sf.Name + " is uninterpreted")
+		e.emitAxiomsFor(sf)
 		return name
 	}
 	var pkg *types.Package
@@ -1184,6 +1219,9 @@ func (c *ExprCtx) lvalue(x CExpr) (Addr, types.Type, bool) {
 		}
 		sv := base.V.(*SliceV)
 		i := Add(sv.Off, c.intExpr(x.I))
+		if sv.FromCell != nil {
+			return Addr{Kind: ACell, Cell: sv.FromCell, Path: sv.CellPath, I: &i}, sl.Elem(), true
+		}
 		if _, isStruct := under(sl.Elem()).(*types.Struct); isStruct {
 			return Addr{Kind: ARef, Base: e.elemAddr(sv.Base, i)}, sl.Elem(), true
 		}
@@ -1255,4 +1293,50 @@ func (e *Enc) rangeQuant(isForall bool, bv, lo, hi, body T) T {
 	}
 	app += ")"
 	return T{app, SBool}
+}
+
+// emitAxioms: axioms of the package that mention the given spec function are assumed (quantified).
+func (e *Enc) emitAxiomsFor(sf *SpecFunc) {
+	for _, lm := range e.eng.lemmas {
+		if !lm.Axiom || lm.Pkg != sf.Pkg || !cexprMentions(lm.Body.Expr, sf.Name) {
+			continue
+		}
+		e.assumeLemma(lm)
+	}
+}
+
+// assumeLemma adds "forall params. body" as a background fact.
+func (e *Enc) assumeLemma(lm *Lemma) {
+	key := "lemma-assumed:" + lm.Pkg + ":" + lm.Name
+	if e.s.declSet[key] {
+		return
+	}
+	e.s.declSet[key] = true
+	var pkg *types.Package
+	if lp := e.eng.pkgByPath[lm.Pkg]; lp != nil {
+		pkg = lp.Pkg.Types
+	}
+	bound := map[string]TV{}
+	var binders []string
+	for _, p := range lm.Params {
+		pn := "|bq!" + p.Name + "|"
+		binders = append(binders, "("+pn+" "+specSort(p.Typ)+")")
+		var typ types.Type
+		if p.Typ == "bool" {
+			typ = types.Typ[types.Bool]
+		}
+		bound[p.Name] = TV{V: T{pn, specSort(p.Typ)}, Typ: typ}
+	}
+	ctx := &ExprCtx{e: e, st: e.entry, old: e.entry, bound: bound, pkg: pkg}
+	body := ctx.boolExpr(lm.Body.Expr)
+	if len(binders) == 0 {
+		e.s.decls = append(e.s.decls, "(assert "+body.S+")")
+	} else {
+		e.s.decls = append(e.s.decls, "(assert (forall ("+strings.Join(binders, " ")+") "+body.S+"))")
+	}
+	if lm.Axiom {
+		e.note("axiom (assumed): " + lm.Name + ": " + lm.Body.Text)
+	} else {
+		e.note("lemma used as a background fact (proved separately as " + lastPathElem(lm.Pkg) + ".lemma/" + lm.Name + ")")
+	}
 }
